@@ -41,12 +41,17 @@ pub struct Root {
     pub discovery_faults: bool,
     /// index into s3sim::FRAMINGS: how every response body of the run is framed on the wire
     pub framing: usize,
+    /// the server keeps connections alive, and before polling starts another current-thread runtime
+    /// of the process has made a request to the same endpoint and stays alive, idle, while the
+    /// poller runs on its own runtime (an application with one runtime for look-ups and one for
+    /// polling); whatever the library shares between calls must not tie one runtime to the other
+    pub prior_runtime: bool,
 }
 
 impl Root {
     pub fn json(&self) -> Value {
         json!({"v0": self.v0, "s0": self.s0, "stop_at": self.stop_at, "drop_after": self.drop_after, "regime": self.regime, "next_present": self.next_present,
-            "with_stats": self.with_stats, "deliveries_horizon": self.deliveries_horizon, "bound": self.bound, "discovery_faults": self.discovery_faults, "framing": self.framing})
+            "with_stats": self.with_stats, "deliveries_horizon": self.deliveries_horizon, "bound": self.bound, "discovery_faults": self.discovery_faults, "framing": self.framing, "prior_runtime": self.prior_runtime})
     }
     pub fn from_json(v: &Value) -> Root {
         Root {
@@ -58,6 +63,7 @@ impl Root {
             next_present: v["next_present"].as_u64().unwrap_or(1) as usize,
             with_stats: v["with_stats"].as_bool().unwrap_or(false),
             framing: v["framing"].as_u64().unwrap_or(0) as usize,
+            prior_runtime: v["prior_runtime"].as_bool().unwrap_or(false),
             deliveries_horizon: v["deliveries_horizon"].as_u64().unwrap_or(6) as usize,
             bound: v["bound"].as_u64().unwrap_or(1) as usize,
             discovery_faults: v["discovery_faults"].as_bool().unwrap_or(false),
@@ -541,6 +547,27 @@ pub fn execute(sim: &Sim, root: &Root, choices: Choices) -> Observation {
         e.rx = None;
         e.dropped_at = Some(0);
     }
+    // the other runtime: makes one listing request (answered with an empty listing) and then stays
+    // alive and idle on its own thread until the poll is over
+    let mut other_runtime: Option<(std::sync::mpsc::Sender<()>, std::thread::JoinHandle<()>)> = None;
+    if root.prior_runtime {
+        crate::s3sim::set_keep_alive(true);
+        sim.set_handler(Box::new(|req| match req {
+            Request::List { bucket, prefix, .. } => Response::xml(200, list_xml(bucket, prefix, &[], false, 0)),
+            _ => Response::xml(404, not_found_xml("none")),
+        }));
+        let (done_tx, done_rx) = channel::<()>();
+        let (fin_tx, fin_rx) = channel::<()>();
+        let h = std::thread::spawn(move || {
+            let rt_a = tokio::runtime::Builder::new_current_thread().enable_all().build().expect("runtime");
+            let _ = guarded(|| rt_a.block_on(nexrad_data::aws::realtime::list_chunks_in_volume(SITE, nexrad_data::aws::realtime::VolumeIndex::new(777), 10)).map(|v| v.len()).unwrap_or(0));
+            let _ = done_tx.send(());
+            let _ = fin_rx.recv();
+            drop(rt_a);
+        });
+        let _ = done_rx.recv_timeout(std::time::Duration::from_secs(30));
+        other_runtime = Some((fin_tx, h));
+    }
     let e2 = env.clone();
     sim.set_handler(Box::new(move |req| e2.lock().unwrap_or_else(|e| e.into_inner()).handle(req)));
     let t0 = tokio::time::Instant::now();
@@ -554,6 +581,11 @@ pub fn execute(sim: &Sim, root: &Root, choices: Choices) -> Observation {
     });
     let _ = t0;
     sim.clear_handler();
+    if let Some((fin, h)) = other_runtime {
+        let _ = fin.send(());
+        let _ = h.join();
+        crate::s3sim::set_keep_alive(false);
+    }
     let result = match r {
         Caught::Panic(p) => format!("PANIC {p}"),
         Caught::Ret((Ok(()), v)) => {
@@ -736,7 +768,7 @@ pub fn judge(ctx: &Ctx, root: &Root, o: &Observation, st: &mut Stats) -> String 
 
 pub fn roots(thorough: bool) -> Vec<Root> {
     let mut out = Vec::new();
-    let base = Root { v0: 500, s0: 30, stop_at: None, drop_after: None, regime: 0, next_present: 1, with_stats: false, deliveries_horizon: 6, bound: if thorough { 2 } else { 1 }, discovery_faults: false, framing: 0 };
+    let base = Root { v0: 500, s0: 30, stop_at: None, drop_after: None, regime: 0, next_present: 1, with_stats: false, deliveries_horizon: 6, bound: if thorough { 2 } else { 1 }, discovery_faults: false, framing: 0, prior_runtime: false };
     let vs = [1usize, 500, 997, 998, 999];
     let ss = [1usize, 2, 30, 53, 54, 55];
     for &v0 in &vs {
@@ -789,6 +821,10 @@ pub fn roots(thorough: bool) -> Vec<Root> {
         for (v0, s0) in [(500usize, 30usize), (999, 54)] {
             out.push(Root { v0, s0, framing, bound: 1, with_stats: framing % 2 == 1, ..base.clone() });
         }
+    }
+    // keep-alive server and a second, idle runtime that has already talked to the endpoint
+    for (v0, s0) in [(500usize, 30usize), (999, 54)] {
+        out.push(Root { v0, s0, prior_runtime: true, bound: 1, ..base.clone() });
     }
     // discovery faults (only panic / hang / fidelity judged)
     for (v0, s0) in [(500usize, 30usize), (999, 55), (1, 1)] {
